@@ -19,7 +19,8 @@ Justification classes and the theorem of `J2O.Props.C14` that carries each:
   keyOnly          `hash_not_in_output`         hash()/id() used as dict/set key or compared for equality only
   registryOrder    `registry_order_irrelevant`  registry enumerated to enter per-plugin contexts; insertion
                                                 order = sorted package walk; validated by pre-import shuffles
-  refutedF1        `refresh_perm_invariant_refuted` (+ `_partial`)  — known finding F-C14-1
+  (F-C14-1, the shape refresh in set order, was fixed in /repo by 4ccbe6a: the refresh now runs in graph order,
+   `refresh_graph_order_invariant`; `refresh_perm_invariant_refuted` documents the old loop)
   refutedF2        `append_perm_invariant_refuted` (+ `_partial`)   — known finding F-C14-2
 -/
 import J2O.Gen.C14
@@ -29,7 +30,7 @@ open J2O.Gen.C14
 
 inductive Cls where
   | commutingRemove | commutingSubst | commutingLocal | collect | reduction | dictFill | sorted
-  | keyOnly | registryOrder | refutedF1 | refutedF2
+  | keyOnly | registryOrder | refutedF2
   deriving DecidableEq, Repr
 
 def reviewed : List (Site × Cls) := [
@@ -51,10 +52,8 @@ def reviewed : List (Site × Cls) := [
   (("ir_optimizations.py", "remove_redundant_transpose_pairs_ir", "comp-set", "elem_nodes", "node", "10b53583ce07"), .reduction),
   -- pass 0: each elementwise node replaces its own inputs `t1_out -> t1_in` (the refresh that follows is in graph order)
   (("ir_optimizations.py", "remove_redundant_transpose_pairs_ir", "for-set", "elem_nodes", "node", "0712616364f8"), .commutingLocal),
-  -- pass -0.5: replace inputs, then `_refresh_elementwise_output_shape(node)` IN SET ORDER  (F-C14-1)
-  (("ir_optimizations.py", "remove_redundant_transpose_pairs_ir", "for-set", "elem_nodes", "node", "1cddeed12ff3"), .refutedF1),
-  -- pass -0.5 AFTER the fix of F-C14-1 (notes/C14-fix-F-C14-1.diff): the set loop only replaces each node's own
-  -- inputs; the refresh then runs `for node in nodes: if node in elem_nodes` (a list: no site, `refresh_graph_order_invariant`)
+  -- pass -0.5 (since fix 4ccbe6a of F-C14-1): the set loop only replaces each node's own inputs; the refresh then
+  -- runs `for node in nodes: if node in elem_nodes` (a list: no site; `refresh_graph_order_invariant`)
   (("ir_optimizations.py", "remove_redundant_transpose_pairs_ir", "for-set", "elem_nodes", "node", "68b4499ac49e"), .commutingLocal),
   -- pass 0: consumers of every elementwise node stay inside the chain (flag loop with break)
   (("ir_optimizations.py", "remove_redundant_transpose_pairs_ir", "for-set", "elem_nodes", "node", "9a1cf34e66f9"), .reduction),
@@ -95,11 +94,9 @@ theorem sites_reviewed : ∀ s ∈ sites, isReviewed s = true := by decide +kern
 /-- All anchored files were present and scanned. -/
 theorem scan_complete : missingFiles = [] := by decide +kernel
 
-/-- The sites known to be order-dependent are exactly the two listed findings' loops: no other
-    reviewed site is allowed to rest on a refuted statement. -/
+/-- The only reviewed site that rests on a refuted statement is the listed finding's loop. -/
 theorem refuted_sites_are_the_listed_ones :
-    (reviewed.filter (fun r => r.2 == .refutedF1 || r.2 == .refutedF2)).map (fun r => (r.1.2.1, r.1.2.2.2.1)) =
-      [("remove_redundant_transpose_pairs_ir", "elem_nodes"),
-       ("FunctionPlugin._lower_and_call", "call_param_names")] := by decide +kernel
+    (reviewed.filter (fun r => r.2 == .refutedF2)).map (fun r => (r.1.2.1, r.1.2.2.2.1)) =
+      [("FunctionPlugin._lower_and_call", "call_param_names")] := by decide +kernel
 
 end J2O.C14
